@@ -660,6 +660,11 @@ class Task:
         for k, v in kwargs.items():
             self.__setattr__(k, v)
 
+    def _detach(self):
+        self.__wbs = None
+        for ch in self.__children:
+            ch._detach()
+
     def _attach(self, wbs: 'WBS'):
         if wbs is None:
             return
@@ -791,6 +796,8 @@ class Task:
 
         for v in self.__children:
             v.__parent = None
+            if not any(v is n for n in value):
+                v._detach()
 
         self.__children.clear()
 
